@@ -28,6 +28,7 @@ EXPLANATION = (
     "(GroupSpecificTerm.eval_new_data), slices rebuilt from the new widths, factors_with_new_levels appended "
     "under 'training width != new width' for the same term name, de-duplicated, returned as a tuple."
     ' R10.3 is decided on the per-case table (code -1 / 0 / >0) computed by shared.zeroing_model. R10.7 the evaluation code of variables, calls and terms stores nothing at prediction (the policy is consulted by every evaluation).'
+    " R10.8 a box over plain / unordered data takes its levels from the observed values (C04's R4.3, box obligations)."
 )
 ASSUMPTIONS = [
     "pandas: Categorical(x, categories=L).codes is -1 exactly for values not in L; numpy advanced indexing returns a copy",
